@@ -20,12 +20,22 @@ global size_of usize == 8;
 fn opcode_u8(op: OpCode) -> (r: u8) ensures r == opcode_byte(op) { op as u8 }
 
 pub struct Chunk { pub code: Vec<u8> }
-pub struct Compiler { pub chunk: Chunk }
+pub struct Local { }
+pub struct Compiler { pub chunk: Chunk, pub locals: Vec<Local>, pub ghost loop_header: int }
+pub struct Token { }
+impl Token { #[verifier::external_body] fn from_string(s: &str) -> Token { unimplemented!() } }
 impl Compiler {
+    // compiler.rs push_loop records the current end of the code as the loop header (unit compiler)
     #[verifier::external_body]
-    fn push_loop(&mut self) ensures final(self).chunk == old(self).chunk { unimplemented!() }
+    fn push_loop(&mut self) ensures final(self).chunk == old(self).chunk, final(self).locals == old(self).locals, final(self).loop_header == old(self).chunk.code@.len() { unimplemented!() }
     #[verifier::external_body]
-    fn pop_loop(&mut self) -> (r: Result<(), CompilerError>) ensures final(self).chunk.code@.len() == old(self).chunk.code@.len() { unimplemented!() }
+    fn current_loop_header(&self) -> (r: Option<(usize, usize, usize)>) ensures r matches Some(h) && h.0 == self.loop_header { unimplemented!() }
+    #[verifier::external_body]
+    fn add_local(&mut self, name: &Token) -> bool ensures final(self).chunk == old(self).chunk, final(self).loop_header == old(self).loop_header { unimplemented!() }
+    #[verifier::external_body]
+    fn mark_initialised(&mut self, index: usize) ensures final(self).chunk == old(self).chunk, final(self).loop_header == old(self).loop_header, final(self).locals == old(self).locals { unimplemented!() }
+    #[verifier::external_body]
+    fn pop_loop(&mut self) -> (r: Result<(), CompilerError>) ensures final(self).chunk.code@.len() == old(self).chunk.code@.len(), final(self).chunk == old(self).chunk { unimplemented!() }
 }
 
 pub struct Parser { pub comp: Compiler, pub ghost targets: Map<int, int>, pub ghost had_error: bool, pub ghost parsed_at: Seq<Precedence> }
@@ -46,6 +56,24 @@ impl Parser {
     fn chunk(&self) -> (r: &Chunk) ensures *r == self.comp.chunk { unimplemented!() }
     #[verifier::external_body]
     fn compiler_mut(&mut self) -> (r: &mut Compiler) ensures *r == old(self).comp, final(self).comp == *final(r), final(self).targets == old(self).targets, final(self).had_error == old(self).had_error { unimplemented!() }
+    #[verifier::external_body]
+    fn compiler(&self) -> (r: &Compiler) ensures *r == self.comp { unimplemented!() }
+    #[verifier::external_body]
+    fn declare_variable(&mut self) ensures final(self).code() == old(self).code(), final(self).targets == old(self).targets, old(self).had_error ==> final(self).had_error, final(self).parsed_at == old(self).parsed_at, final(self).comp.locals@.len() >= old(self).comp.locals@.len() { unimplemented!() }
+    #[verifier::external_body]
+    fn mark_initialised(&mut self) ensures old(self).quiet(final(self)) { unimplemented!() }
+    #[verifier::external_body]
+    fn identifier_constant(&mut self, token: &Token) -> u16 ensures old(self).quiet(final(self)) { unimplemented!() }
+    #[verifier::external_body]
+    fn error(&mut self, message: &str) ensures final(self).comp == old(self).comp, final(self).targets == old(self).targets, final(self).had_error { unimplemented!() }
+    #[verifier::external_body]
+    fn emit_constant_op(&mut self, opcode: OpCode, constant: u16)
+        ensures final(self).parsed_at == old(self).parsed_at, final(self).code().len() == old(self).code().len() + 3, old(self).extends(final(self)), final(self).targets == old(self).targets, final(self).had_error == old(self).had_error, final(self).comp.loop_header == old(self).comp.loop_header, final(self).comp.locals == old(self).comp.locals
+    { unimplemented!() }
+    #[verifier::external_body]
+    fn emit_bytes(&mut self, bytes: [u8; 2])
+        ensures final(self).parsed_at == old(self).parsed_at, final(self).code() == old(self).code().push(bytes[0]).push(bytes[1]), final(self).targets == old(self).targets, final(self).had_error == old(self).had_error, final(self).comp.loop_header == old(self).comp.loop_header, final(self).comp.locals == old(self).comp.locals
+    { unimplemented!() }
     // ---- emitters (byte-level contracts: unit `compiler`)
     #[verifier::external_body]
     fn emit_byte(&mut self, byte: u8)
@@ -115,6 +143,19 @@ impl Parser {
     //@  assert @loop_jumps_back_to_the_condition after_stmt "self.emit_loop(loop_start)" self.targets[self.code().len() - 2] == old(self).code().len() && self.code()[self.code().len() - 3] == opcode_byte(OpCode::Loop)
     //@  assert @false_condition_leaves_the_loop_behind_the_back_jump after_stmt "self.patch_jump(exit_jump)" self.targets[exit_jump as int] == self.code().len() && self.code()[self.code().len() - 3] == opcode_byte(OpCode::Loop) && self.code()[exit_jump + 2] == opcode_byte(OpCode::Pop) && self.code()[exit_jump - 1] == opcode_byte(OpCode::JumpIfFalse)
     //@  assert @loop_exit_drops_the_condition before_stmt "match self.compiler_mut().pop_loop()" self.code()[self.targets[exit_jump as int]] == opcode_byte(OpCode::Pop) && self.code().len() == self.targets[exit_jump as int] + 1
+    //@end
+
+    // for v in E { B }:   Nil  E  Invoke iter 0   L: IterNext  SetLocal v  JumpIfStopIter→X  Pop  B  Loop→L   X: Pop
+    // every iteration starts by asking the iterator for its next value and storing it in the loop variable; the exit
+    // test looks at that value; the back jump returns to the iterator step; the exit continues behind the back jump,
+    // at the Pop that drops the StopIter value (the fall-through path has its own Pop)
+    //@fn file=yarel/src/compiler.rs path=Parser::for_statement props=C05,C18
+    //@  rewrite R21
+    //@  requires old(self).code().len() < 0x4000_0000_0000_0000, old(self).comp.locals@.len() >= 1
+    //@  assert @each_iteration_asks_the_iterator_and_stores_the_value_in_the_loop_variable before_stmt "self.emit_byte(opcode_u8(OpCode::Pop))#1" self.code().len() == loop_start + 6 && self.code()[loop_start as int] == opcode_byte(OpCode::IterNext) && self.code()[loop_start + 1] == opcode_byte(OpCode::SetLocal) && self.code()[loop_start + 2] == loop_var as u8 && self.code()[loop_start + 3] == opcode_byte(OpCode::JumpIfStopIter) && exit_jump == loop_start + 4
+    //@  assert @loop_jumps_back_to_the_iterator_step after_stmt "self.emit_loop(loop_start)" self.targets[self.code().len() - 2] == loop_start && self.code()[self.code().len() - 3] == opcode_byte(OpCode::Loop) && self.code()[loop_start as int] == opcode_byte(OpCode::IterNext)
+    //@  assert @exhausted_iterator_leaves_the_loop_behind_the_back_jump after_stmt "self.patch_jump(exit_jump)" self.targets[exit_jump as int] == self.code().len() && self.code()[self.code().len() - 3] == opcode_byte(OpCode::Loop) && self.code()[exit_jump + 2] == opcode_byte(OpCode::Pop)
+    //@  assert @loop_exit_drops_the_stop_value before_stmt "match self.compiler_mut().pop_loop()" self.code()[self.targets[exit_jump as int]] == opcode_byte(OpCode::Pop) && self.code().len() == self.targets[exit_jump as int] + 1
     //@end
 
     // A and B:   A  JumpIfFalse→END  Pop  B  END:   (a falsey A is the result: JumpIfFalse leaves it on the stack)
